@@ -209,7 +209,7 @@ func (i *IE) Uint() uint64 {
 
 // ---- commonly used IE constructors (wire formats per TS 29.244 clause 8.2) ----
 
-func NodeIDv4(ip net.IP) *IE     { return Raw(TNodeID, append([]byte{0}, ip.To4()...)...) }
+func NodeIDv4(ip net.IP) *IE { return Raw(TNodeID, append([]byte{0}, ip.To4()...)...) }
 func NodeIDFQDN(name string) *IE {
 	b := []byte{2}
 	for _, lab := range strings.Split(name, ".") {
@@ -301,8 +301,8 @@ func bitrate(t uint16, ul, dl uint64) *IE {
 	}
 	return Raw(t, b...)
 }
-func MBR(ul, dl uint64) *IE { return bitrate(TMBR, ul, dl) }
-func GBR(ul, dl uint64) *IE { return bitrate(TGBR, ul, dl) }
+func MBR(ul, dl uint64) *IE  { return bitrate(TMBR, ul, dl) }
+func GBR(ul, dl uint64) *IE  { return bitrate(TGBR, ul, dl) }
 func QFI(v uint8) *IE        { return U8(TQFI, v) }
 func RQI(v uint8) *IE        { return U8(TRQI, v) }
 func PPI(v uint8) *IE        { return U8(TPPI, v) }
@@ -334,7 +334,7 @@ func VolThresh(flags uint8, tot, ul, dl uint64) *IE { return volumes(TVolThresh,
 func VolQuota(flags uint8, tot, ul, dl uint64) *IE  { return volumes(TVolQuota, flags, tot, ul, dl) }
 func DDNDelay(units uint8) *IE                      { return U8(TDDNDelay, units) }
 func SuggBufCnt(v uint8) *IE                        { return U8(TSuggBufCnt, v) }
-func SMReqFlags(v uint8) *IE { return U8(TSMReqFlags, v) }
+func SMReqFlags(v uint8) *IE                        { return U8(TSMReqFlags, v) }
 
 // ---- messages ----
 
